@@ -13,7 +13,12 @@
 
    [read_available] is refined with the MAX_BUFFER_SIZE rule of the read loop
    (`if this.read_buf.len() >= MAX_BUFFER_SIZE { .. return Ok(false) }` before each poll_read):
-   [XRead] is a no-op when the buffer already holds MAX_BUFFER_SIZE bytes. *)
+   [XRead] is a no-op when the buffer already holds [read_cap] bytes.  [read_cap] is the constant
+   the DISPATCHER sees under the name MAX_BUFFER_SIZE (resolved through dispatcher.rs's `use`
+   path by tools/gen/h1_gate.py -> Gen/H1Gate.v, H1_DISP_READ_CAP); [max_buffer_size] is the one
+   the DECODER uses for its TooLarge rule.  They are separate parameters here: that the reader
+   never starves the decoder is a theorem with the premise [max_buffer_size <= read_cap]
+   (GateSegProofs.reader_never_stops_early), not a built-in of the model. *)
 From AV Require Import Lib.Base H1.Chunked H1.PayloadDec H1.Framing H1.Codec H1.Gate.
 
 Inductive xop :=
@@ -26,6 +31,7 @@ Section GateExec.
   Variable head : bytes -> head_res.
   Variable max_buffer_size : N.
   Variable max_pipelined : N.
+  Variable read_cap : N.                       (* dispatcher.rs: MAX_BUFFER_SIZE as imported there *)
 
   (* the drain loop, also returning what is left in the buffer when it stops *)
   Definition error_rest (c : codec) (buf : bytes) : bytes :=
@@ -55,7 +61,7 @@ Section GateExec.
   Definition xstep (g : gate) (o : xop) : gate :=
     match o with
     | XRead bs =>
-        if max_buffer_size <=? lenN (g_read_buf g) then g          (* read loop returns early *)
+        if read_cap <=? lenN (g_read_buf g) then g          (* read loop returns early *)
         else gstep head max_buffer_size max_pipelined g (ORead bs)
     | XPeerClosed => gstep head max_buffer_size max_pipelined g OPeerClosed
     | XPoll pl => gstep head max_buffer_size max_pipelined g (OPoll pl (leftover_of g))
